@@ -283,4 +283,108 @@ def k6(ctx, kr):
     for f in kr.findings: f.role = f.role.replace('C08/K2/', 'C15/K6/')
     kr.findings = [f for f in kr.findings if 'tokens-not-preserved' in f.role or 'panic' in f.role]
 
-KERNELS = [k1, k2, k4, k5, k6]
+
+# ---------------------------------------------------------------------------------------------- K3 start and length are measured in one unit, and cover the lexeme
+def _unit_len(bs, unit):
+    if unit == 'bytes': return z3.BitVecVal(len(bs), 64)
+    r = models.utf16_len(bs) if unit == 'utf16' else models.char_len(bs)
+    return z3.BitVecVal(r, 64) if isinstance(r, int) else r
+
+def _w64(x):
+    x = tobv(x, 64)
+    return z3.ZeroExt(64 - x.size(), x) if x.size() < 64 else x
+
+@kernel('K3 lsp.semantic_token_units')
+def k3(ctx, kr):
+    P = ctx.program(CR)
+    key = _tokenize_key(P)
+    st = {}
+    M = _machine(P, st)
+    NB = 3 if ctx.tier == 'quick' else 4
+    for shape in ('comment-then-identifier', 'identifier-after-string'):
+        for nb in range(1, NB + 1):
+            def entry(M):
+                body = [M.fresh_bv('b%d' % i, 8) for i in range(nb)]
+                valid, _ = LC.utf8_valid(body); M.assume(valid)
+                for x in body: M.assume(z3.And(x != 10, x != 13, x != ord('*'), x != ord("'")))
+                first = ([ord('('), ord('*')] + body + [ord('*'), ord(')')]) if shape.startswith('comment') else ([ord("'")] + body + [ord("'")])
+                # lexer invariant (C05-K1 / C15-K5): col is the byte offset of the span start within its line
+                t1 = _mk_token(P, 'Comment' if shape.startswith('comment') else 'SingleByteString', 0, 0, first, 0)
+                t2 = _mk_token(P, 'Identifier', 0, len(first) + 1, [ord('x'), ord('y')], len(first) + 1)
+                st['lex'] = [first, [ord('x'), ord('y')]]; st['prefix'] = [[], first + [32]]; st['body'] = body
+                st['tokens'] = [t1, t2]; st['diags'] = []
+                return _call(M, P, key)
+            def on_path(M, pr):
+                kr.paths += 1
+                if pr.inconclusive: kr.inconc(pr.inconclusive); return
+                kr.nontrivial += 1
+                def text_of(m): return bytes(x if isinstance(x, int) else m.eval(x, True).as_long() for x in st['lex'][0]).decode('utf-8', 'replace') + ' xy\n'
+                s = z3.Solver(); s.add(*pr.pc)
+                if pr.panic:
+                    s.check(); _add(kr, 'C15/K3/panic', 'LspProject::tokenize panics: ' + pr.panic.msg[:60], {}, ('semtok_units', (text_of(s.model()),))); return
+                res = pr.result
+                if res.disc != 0: kr.inconc('tokenize returned Err for a document without lexical errors'); return
+                out = res.f[0].items
+                # keep the tokens that are highlighted (the string token may have no legend entry)
+                if len(out) not in (1, 2): kr.inconc('%d semantic tokens for 2 lexemes' % len(out)); return
+                idx = [0, 1] if len(out) == 2 else [1]
+                # decode
+                ac = None; per_unit = []
+                starts = []; lens = []
+                for j, t in enumerate(out):
+                    ds, ln = _w64(t.f[1]), _w64(t.f[2])
+                    ac = ds if ac is None else ac + ds
+                    starts.append(ac); lens.append(ln)
+                for unit in ('bytes', 'utf16', 'chars'):
+                    okk = []
+                    for j, i in enumerate(idx):
+                        okk.append(z3.And(starts[j] == _unit_len(st['prefix'][i], unit), lens[j] == _unit_len(st['lex'][i], unit)))
+                    per_unit.append(z3.And(okk))
+                s.add(z3.Not(z3.Or(per_unit))); kr.queries += 1
+                t0 = time.time(); r = s.check(); kr.solver_s += time.time() - t0
+                if r == z3.sat:
+                    txt = text_of(s.model())
+                    _add(kr, 'C15/K3/%s/no-consistent-unit' % shape, 'semantic tokens of %r do not cover the lexemes when start and length are read in bytes, in UTF-16 code units or in characters' % txt, {'text': txt}, ('semtok_units', (txt,)))
+                elif r == z3.unknown: kr.inconc('solver unknown')
+                elif len(kr.validate) < 2:
+                    s2 = z3.Solver(); s2.add(*pr.pc); s2.add(z3.Or([z3.UGE(x, 0x80) for x in st['body']]))
+                    if s2.check() == z3.sat: kr.validate.append(('semtok_units', (text_of(s2.model()),)))
+                if len(kr.samples) < 2: kr.samples.append({'shape': shape, 'body_bytes': nb, 'semantic_tokens': len(out)})
+            M.explore(entry, on_path)
+    kr.queries += M.stats['smt']
+    kr.functions = fn_paths(P, M.encoded); kr.models = sorted(M.models_used)
+    kr.stubs = ['wrapped Project::tokenize returns a comment (or string) token with a symbolic body followed by an identifier on the same line, columns in bytes as the lexer counts them (C15-K5)']
+    kr.bounds = 'a comment / string whose body is any valid UTF-8 text of 1..%d bytes (no line break), followed by an identifier on the same line: there is one unit (bytes, UTF-16 code units or characters) in which every decoded start and length covers exactly its lexeme' % NB
+    kr.exhaustive = True
+    kr.outside = ['which unit the client negotiated (the server does not negotiate a position encoding)']
+
+@replay_factory('semtok_units')
+def _replay_semtok_units(text):
+    def rp(ctx):
+        import lspclient
+        s = lspclient.LspSession(ctx.ironplcc_path())
+        try:
+            s.initialize(); uri = 'file:///tmp/verif_c15u.st'
+            s.did_open(uri, text, 1); s.diagnostics_for(uri, timeout=5)
+            rid = s.request('textDocument/semanticTokens/full', {'textDocument': {'uri': uri}})
+            r = s.wait_for(lambda x: x.get('id') == rid, timeout=5)
+        finally:
+            s.close()
+        if r is None: return True, {'note': 'request not answered', 'text': text}
+        if r.get('result') is None: return None, {'note': 'no token list', 'text': text}
+        data = r['result']['data']; row = text.split('\n')[0]
+        toks = []; ac = 0
+        for i in range(0, len(data), 5):
+            if data[i] != 0: break
+            ac += data[i + 1]; toks.append((ac, data[i + 2]))
+        lexemes = [m.group(0) for m in re.finditer(r"\(\*.*?\*\)|'[^']*'|[A-Za-z_]+", row)]
+        def units(sx, unit): return len(sx.encode()) if unit == 'bytes' else (len(sx.encode('utf-16-le')) // 2 if unit == 'utf16' else len(sx))
+        verdict = {}
+        for unit in ('bytes', 'utf16', 'chars'):
+            exp = []
+            for m in re.finditer(r"\(\*.*?\*\)|'[^']*'|[A-Za-z_]+", row): exp.append((units(row[:m.start()], unit), units(m.group(0), unit)))
+            verdict[unit] = all(t in exp for t in toks) and len(toks) >= 1
+        return not any(verdict.values()), {'text': text, 'decoded (start, length)': toks, 'consistent_in': verdict}
+    return rp
+
+KERNELS = [k1, k2, k3, k4, k5, k6]
